@@ -60,7 +60,7 @@ CHECKS = {
         "inner functions on generated matrices (empty rows and columns, one row, >100 stored values) x {dense, CSR, CSC} x {X, layer} x dtypes x HDF5 chunk shapes x "
         "chunk sizes x max_gb down to the enforced minima, vs the extracted model.",
    note="get_batch (exact for duplicate-free row lists / rejects others) is covered by the correspondence check only (statements kept as comments in Props/C05.v); "
-        "h5py slicing and scipy toarray are trusted; F2c (CSC matrix without any stored value makes the conversion raise) is a known finding.",
+        "h5py slicing and scipy toarray are trusted; F2c (CSC matrix without any stored value made the conversion raise) was repaired in /repo (2b803dd).",
    technique=TECH, ref="DESIGN.md section 7 C05"),
  'C07': dict(
    text="Theorems over an exact-arithmetic model of the normalisation path (CPM as fractions; log2(1+.) an arbitrary function of the value): c07_scale_invariant "
@@ -82,27 +82,27 @@ CHECKS = {
         "Tie: precompute_summary_stats_from_h5ad[_list_and_tree], truncate_precomputed_stats_file, merge_precompute_files on generated references x file splits x encodings "
         "x rows_at_a_time x workers vs the extracted model.",
    note="c09_truncation is _partial: identifying the old tree's ancestor relation with the truncated tree's structure is C10's drop_level lemma and is not composed in. "
-        "Float summation not modelled: sums exact on dyadic inputs, within 2(n+2) eps sum|x| on raw counts. Known finding F2s (CSC file without stored values).",
+        "Float summation not modelled: sums exact on dyadic inputs, within 2(n+2) eps sum|x| on raw counts. F2s (CSC file without stored values) repaired in /repo (2b803dd).",
    technique=TECH, ref="DESIGN.md section 7 C09"),
  'C11': dict(
    text="Theorems: c11_holm_tie_invariant (for every argsort result), c11_restricted_holm_equiv / _decisions (the restricted Holm variant decides exactly as full Holm at "
-        "p_th), c11_boring_t_sound_partial, c11_penetrance_sound (under the 1e-5 margin) with c11_sound_refuted (F8 witness), c11_penetrance_complete, c11_sound, "
+        "p_th), c11_boring_t_sound_partial, c11_penetrance_sound (no margin needed since the repair of F8 in /repo e33b45d), c11_penetrance_complete, c11_sound, "
         "c11_sound_full_holm, c11_complete, c11_exact_iff, c11_direction, c11_up_down_exact, c11_no_gene_both_ways, c11_up_down_cover, c11_pair_swap, c11_chunk_merge "
-        "(every n_per), c11_worker_independent, c11_mask_file_exact, c11_mask_file_strict_is_zero, c11_mask_route_sound, c11_mask_route_complete. Tie: correct_ttest / "
+        "(every n_per), c11_worker_independent, c11_tables_total, c11_empty_direction_table (F17 repaired in /repo 90f7980), c11_mask_file_exact, c11_mask_file_strict_is_zero, c11_mask_route_sound, c11_mask_route_complete. Tie: correct_ttest / "
         "approx_correct_ttest / penetrance tests / score_differential_genes / _get_validity_mask on a dyadic grid where binary64 is exact, and both marker routes end to end "
         "on generated statistics files vs the extracted model.",
-   note="c11_boring_t_sound is _partial (the CDF step is a numeric per-run check; scipy CDFs not modelled); c11_tables_transpose is C13's. Known findings F8, F16, F17.",
+   note="c11_boring_t_sound is _partial (the CDF step is a numeric per-run check; scipy CDFs not modelled); c11_tables_transpose is C13's. Known finding F16 (mask route has no n_cells_min test); F8 and F17 repaired in /repo.",
    technique=TECH, ref="DESIGN.md section 7 C11"),
  'C10': dict(
-   text="23 theorems over unbounded trees about a model of validate_taxonomy_tree, get_taxonomy_tree, get_child_to_parent, convert_tree_to_leaves, get_all_leaf_pairs, _drop_level, "
+   text="20 theorems over unbounded trees about a model of validate_taxonomy_tree, get_taxonomy_tree, get_child_to_parent, convert_tree_to_leaves, get_all_leaf_pairs, _drop_level, "
         "flatten, to_str(drop_cells) and backfill_assignments: c10_validate_sound / _exact / _complete / c10_mutants_rejected (the validator accepts exactly the strict trees and "
-        "rejects every one-edit mutant class), c10_from_labels_exact, c10_parent_child_inverse, c10_leaves_partition, c10_leaves_by_ancestor, c10_leaf_pairs_exact (under "
-        "repetition-free child lists) with c10_leaf_pairs_refuted / c10_leaves_partition_refuted / c10_dup_child_accepted / c10_validator_gaps / c10_drop_leaf_refuted (finding F3), "
+        "rejects every one-edit mutant class, a child listed twice included — finding F3, repaired in /repo ce0265d), c10_validate_exact_dict, c10_from_labels_exact, c10_parent_child_inverse, "
+        "c10_leaves_partition, c10_leaves_by_ancestor and c10_leaf_pairs_exact (now for EVERY accepted tree), c10_validator_gaps (childless inner nodes and empty levels are still accepted), "
         "c10_drop_preserves, c10_drop_errors, c10_drop_many_preserves, c10_drop_keeps_leaf_lists, c10_drop_leaf_preserves, c10_flatten_preserves, c10_roundtrip_preserves, "
         "c10_backfill_spec, c10_backfill_fills. Tie: every tree shape with <= 4 levels and <= 5 (quick) / 6 (thorough) leaves in canonical and shuffled variants, random larger trees, "
         "one-edit mutants, label tables (also through from_h5ad), random drop sequences and backfill records, through every public TaxonomyTree method vs the extracted model.",
-   note="Leaf-partition and leaf-pair statements are proved under repetition-free child lists, which the unchanged validator does not enforce (F3, known finding, _refuted witnesses); "
-        "from_data_release / from_precomputed_stats / from_json_file constructors not exercised; level names distinct and not reserved keys.",
+   note="F3 (validator accepted a child listed twice) was repaired in /repo (ce0265d); the model follows the repaired validator and the statements that needed repetition-free child lists "
+        "now hold for every accepted tree. from_data_release / from_precomputed_stats / from_json_file constructors not exercised; level names distinct and not reserved keys.",
    technique=TECH, ref="DESIGN.md section 7 C10"),
  'C12': dict(
    text="17 theorems about the model of _run_selection, for every legal choice sequence (the tie order of argsort is an input): c12_invariant (+ _initially, _preserved), "
@@ -118,12 +118,12 @@ CHECKS = {
    text="Theorems: c13_count_pass (chunk-size independence), c13_transpose_exact (the Gallina model of transpose_sparse_matrix_on_disk — count pass, block loop with fuel, "
         "load chunks, next-free-slot table — equals the abstract transpose for every well-formed input, slice, elements_at_a_time and chunk sizes >= 1: monotone pointer array "
         "from 0 to nnz, indices sorted within each row, every value at its transposed position, termination within the fuel), c13_transpose_is_spec, c13_transpose_pattern, "
-        "c13_block_loop_terminates, c13_transpose_no_value_rejects (F2 in the model), c13_parallel_concat (the parallel version equals the serial specification whenever it "
-        "returns), c13_slices_partition, c13_copy_h5_1d/2d, c13_copy_layer_sparse/dense. Tie: every 0/1 pattern up to 3x3 (quick) / 4x4 (thorough) + random larger matrices "
+        "c13_block_loop_terminates, c13_transpose_empty_slice, c13_parallel_concat (the parallel version equals the serial specification, totally, for every worker count >= 1), "
+        "c13_parallel_empty, c13_slices_partition, c13_copy_h5_1d/2d, c13_copy_layer_sparse/dense. Tie: every 0/1 pattern up to 3x3 (quick) / 4x4 (thorough) + random larger matrices "
         "through transpose_sparse_matrix_on_disk, csc_to_csr_on_disk, the v2 parallel version (1-4 workers), pivot_csr_h5ad, shuffle_csr_h5ad_rows, subset_csc_h5ad_columns, "
         "amalgamate_h5ad, copy_layer_to_x, copy_h5_excluding_data, with observed loop bounds compared to the model's.",
    note="shuffle_rows / subset_columns / amalgamate are modelled and tied by differential testing only (statements kept as comments in Props/C13.v); gzip not modelled; "
-        "known findings F2, F2w, F4, F4z, F4m, F2a, amalgamate-empty-piece, copy-layer-empty-sparse.",
+        "the zero-size-chunk family (F2, F2w, F4, F4z, F4m, F2a, amalgamate-empty-piece, copy-layer-empty-sparse) was repaired in /repo (2b803dd); the model follows the repaired code.",
    technique=TECH, ref="DESIGN.md section 7 C13"),
  'C17': dict(
    text="Theorems over a model of _run_mapping's data flow (reduce -> election on the reduced tree -> directly_assigned -> backfill with the stored tree), generic in marker cache "
@@ -161,7 +161,7 @@ CHECKS = {
         "= own list intersected with the query if large enough, else the minimal union with the nearest ancestors / root, computed from the ORIGINAL table: "
         "ancestors are unpatched when consulted), c08_fallback_minimal, c08_fallback_bounds, c08_reported_equals_used, c08_pairing_by_name, "
         "c08_pairing_columns, c08_used_in_query_and_reference, c08_single_child_needs_none (+ _refuted witness = finding F7), c08_errors_root, "
-        "c08_errors_unknown_to_reference, c08_errors_no_shared_marker, c08_flatten_unions, c08_flatten_tree. Tie: validate_marker_lookup + "
+        "c08_errors_unknown_to_reference, c08_errors_unknown_marker, c08_accepted_demands_nothing, c08_errors_no_shared_marker, c08_flatten_unions, c08_flatten_tree. Tie: validate_marker_lookup + "
         "create_marker_cache_from_specified_markers + serialize_markers on generated (tree, table, gene orders, min_markers 0..6), HDF5 cache re-read, "
         "error kinds through an enum, vs the extracted model.",
    note="Names contain no '/'; 'metadata'/'log' keys of the table ignored; F7 is a known finding (entry of a parent that needs no markers aborts cache creation).",
@@ -248,7 +248,7 @@ m = {
               'serves_properties': [c['property_id'] for c in checks],
               'kind_free_text': 'Coq 8.16.1 development (Model/Proofs/Props), extracted to OCaml, differential harness in Python against /repo/src'}],
  'checks': checks,
- 'notes': 'fix: commits in /repo: 96b10f0 (F11). Known findings: /verif/known_findings.json.',
+ 'notes': 'fix: commits in /repo: 96b10f0 (F11), df833cb (F1), 2b803dd (F2 family), ce0265d (F3), e33b45d (F8), 90f7980 (F17). Known findings: /verif/known_findings.json.',
  'not_applicable': na,
 }
 (ROOT / 'MANIFEST.json').write_text(json.dumps(m, indent=1) + '\n')
